@@ -39,7 +39,7 @@ Proof. exact linear_map_value. Qed.
 Print Assumptions C05_term_linear_map_law.
 Example C05_nonvacuous_linear_map :
   tr_ok G2 (@TDag G2) /\ tr_anti G2 (@TDag G2) = true /\
-  value G2 ZT (linear_map G2 ZT (@TDag G2) true (@Func G2 ZT wf_fun None)) 2%Z <> z2.
+  value G2 ZT (linear_map G2 ZT (@TDag G2) true (@Func G2 ZT wf_fun wnone)) 2%Z <> z2.
 Proof. split; [apply tr_ok_dag|split; [reflexivity|vm_compute; discriminate]]. Qed.
 
 (* a product term stands for: its stack applied to (left value @ right value) *)
@@ -223,7 +223,7 @@ Print Assumptions C05_old_add_inter_guard_refuted.
 Theorem C05_coefficient_replace_arguments :
   forall (A : Alg) (T : TimeS A) (c : @coef A T) m n t,
     ceval A T (creplace A T n c) t = ceval_ov A T n c t /\
-    creplace A T m (creplace A T n c) = creplace A T (amerge A T n m) c.
+    creplace A T m (creplace A T n c) = creplace A T (rcomb A T n m) c.
 Proof. intros. split; [apply ceval_creplace|apply creplace_creplace]. Qed.
 Print Assumptions C05_coefficient_replace_arguments.
 
@@ -234,7 +234,7 @@ Theorem C05_replace_arguments_commutes :
     ereplace A T n (matmul A T a b) = matmul A T (ereplace A T n a) (ereplace A T n b) /\
     ereplace A T n (linear_map A T f anti a) = linear_map A T f anti (ereplace A T n a) /\
     qe_arguments A T n (compress A T es) = compress A T (qe_arguments A T n es) /\
-    (forall m, ereplace A T m (ereplace A T n a) = ereplace A T (amerge A T n m) a) /\
+    (forall m, ereplace A T m (ereplace A T n a) = ereplace A T (rcomb A T n m) a) /\
     (wf A T a -> wf A T (ereplace A T n a)).
 Proof.
   intros. split; [apply ereplace_scale|]. split; [apply ereplace_matmul|].
@@ -253,8 +253,49 @@ Proof. intros. rewrite qe_call_V. apply pointwise_ov. assumption. Qed.
 Print Assumptions C05_pointwise_arguments.
 Example C05_nonvacuous_arguments :
   wfx G2 ZT w_tree3 /\
-  sem G2 ZT w_tree3 2%Z <> sem G2 ZT (@XArgs G2 ZT w_tree3 (Some 7%Z)) 2%Z.
+  sem G2 ZT w_tree3 2%Z <> sem G2 ZT (@XArgs G2 ZT w_tree3 [(0%Z, 7%Z)]) 2%Z.
 Proof. split; [exact w_tree3_wfx|exact w_tree3_depends_on_args]. Qed.
+
+(* any history arguments(n_1); ..; arguments(n_k) on the object built from a tree
+   evaluates to the tree's meaning under the combined dictionary
+   {**n_1, .., **n_k}; every function leaf then holds amerge .. applied in order *)
+Theorem C05_arguments_history :
+  forall (A : Alg) (T : TimeS A) (x : qx A T) (hist : list (tRepl A T)) t,
+    wfx A T x ->
+    qe_call A T (fold_left (fun es n => qe_arguments A T n es) hist (build A T x)) t
+    = semo A T (hist_ov A T hist) x t /\
+    (forall (a : tArgs A T) n r, hist = n :: r ->
+       fold_left (amerge A T) hist a = amerge A T a (fold_left (rcomb A T) r n)).
+Proof.
+  intros A T x hist t Hx. split.
+  - rewrite arguments_history, qe_call_V. apply pointwise_ov. exact Hx.
+  - intros a n r E. subst hist. simpl. apply amerge_fold.
+Qed.
+Print Assumptions C05_arguments_history.
+
+(* dictionaries with declared parameter sets (the execution instance): after
+   any history a function leaf holds, for every declared parameter (every name
+   for **kw / dict style), the last value given anywhere, else the value given
+   at construction; for other names nothing (so the function uses its default) *)
+Theorem C05_function_sees_last_value_of_declared_parameters :
+  forall (ps : option (list Z)) (a0 : dict) (hist : list dict) (k : Z),
+    lookup k (snd (fold_left dmerge hist (dinit ps a0)))
+    = if allowed ps k
+      then match hist_last k hist with Some v => Some v | None => lookup k a0 end
+      else None.
+Proof.
+  intros ps a0 hist k. rewrite (history_state ps hist (dinit ps a0) k eq_refl).
+  unfold dinit. simpl. rewrite lookup_dfilt.
+  destruct (allowed ps k); [|reflexivity]. reflexivity.
+Qed.
+Print Assumptions C05_function_sees_last_value_of_declared_parameters.
+(* def H(t, w, phi=0): QobjEvo(H, args={w: 2}) then arguments(phi=8), arguments(k=5):
+   phi is 8 although it was not given at construction, w stays 2, k is not a parameter *)
+Example C05_nonvacuous_declared_parameters :
+  let st := fold_left dmerge [[(1, 8)]; [(2, 5)]]%Z (dinit (Some [0; 1]%Z) [(0, 2)]%Z) in
+  lookup 1%Z (snd st) = Some 8%Z /\ lookup 0%Z (snd st) = Some 2%Z /\ lookup 2%Z (snd st) = None /\
+  getd st 1 0 = 8%Z.
+Proof. vm_compute. repeat split. Qed.
 
 (* ---- expression trees: the property itself, every tree, unconditionally *)
 Theorem C05_pointwise :
@@ -309,5 +350,5 @@ Theorem C05_func_memo_transparent :
 Proof. intros. apply func_memo; assumption. Qed.
 Print Assumptions C05_func_memo_transparent.
 Example C05_nonvacuous_memo :
-  memo_ok G2 ZT (wf_fun None) (Some (2%Z, wf_fun None 2%Z)) /\ (forall a b, Z.eqb a b = true -> a = b).
+  memo_ok G2 ZT (wf_fun wnone) (Some (2%Z, wf_fun wnone 2%Z)) /\ (forall a b, Z.eqb a b = true -> a = b).
 Proof. split; [reflexivity|intros a b H; apply Z.eqb_eq; exact H]. Qed.
